@@ -147,3 +147,23 @@ let () =
           res_to (fun bs -> List (Atom "ok" :: List.map (fun (k, t) -> List [ss k; ss t]) bs))
             (Extracted.EmitData.data_of_dfa (shell_of sh) (cl (string_ cmd)) (cdfa_of d) (ord_of om) (ord_subs_of os) groups)
       | _ -> raise (Shape "emitdata args"))
+
+(* emitscript <shell> "command" "signature line" <dfa> <ordmain> <ordsubs> ((id ...)...)
+     -> (ok "script text" valid) | (panic "site")     whole-script models of the fish/zsh/pwsh emitters *)
+let whole_script : (string, char list -> char list -> Dfa.cdfa -> (char list * char list) list ->
+                    (Extracted.BinNums.coq_N * (char list * char list) list) list -> Extracted.BinNums.coq_N list list ->
+                    (unit, char list * bool) Extracted.Prelude.outcome) Hashtbl.t = Hashtbl.create 4
+let () = Hashtbl.replace whole_script "zsh" Extracted.EmitZsh.script_of_dfa
+let () = Hashtbl.replace whole_script "pwsh" Extracted.EmitPwsh.script_of_dfa
+let () = Hashtbl.replace whole_script "fish" Extracted.EmitFish.script_of_dfa
+let () =
+  register "emitscript" (fun v ->
+      match v with
+      | List [sh; cmd; sg; d; om; os; gs] ->
+          let groups = List.map (fun g -> List.map n_ (list_ g)) (list_ gs) in
+          (match Hashtbl.find_opt whole_script (atom sh) with
+           | None -> List [Atom "unsupported"]
+           | Some f ->
+               res_to (fun (s, valid) -> List [Atom "ok"; ss s; bit valid])
+                 (f (cl (string_ cmd)) (cl (string_ sg)) (cdfa_of d) (ord_of om) (ord_subs_of os) groups))
+      | _ -> raise (Shape "emitscript args"))
